@@ -45,6 +45,9 @@ Definition irel (r1 r2 : reader) : Prop :=
 Lemma irel_rk r1 r2 : irel r1 r2 -> rk r1 = rk r2.
 Proof. intros [(A & B & _)|[_ ->]]; congruence. Qed.
 
+Lemma irel_io r1 r2 : irel r1 r2 -> (rk r1 = SrcIo <-> rk r2 = SrcIo).
+Proof. intros H. rewrite (irel_rk r1 r2 H). tauto. Qed.
+
 Lemma irel_same r : rk r <> SrcIo -> irel r r.
 Proof. intros H. right. auto. Qed.
 
@@ -143,6 +146,11 @@ Section Invisible.
   Variable fast : bool.
   Variable std_parse : N -> Z -> f64.
 
+  Lemma isim_symbol_rd fuel scratch : sim irel (parse_symbol_rd fuel scratch).
+  Proof. exact (sim_parse_symbol_rd_same irel irel_io isim_peek isim_eat isim_error isimS_take_symbol fuel scratch irel_rk). Qed.
+  Lemma isim_r6rs_str_rd fuel : sim irel (parse_r6rs_str_rd fuel).
+  Proof. exact (sim_parse_r6rs_str_rd_same irel irel_io isim_next isim_error isimS_take_run fuel irel_rk). Qed.
+
   Definition iprel := prel irel.
 
   Lemma init_related inp1 inp2 : strip inp1 = strip inp2 -> iprel (init_state SrcIo inp1) (init_state SrcIo inp2).
@@ -153,15 +161,15 @@ Section Invisible.
     fst (next_value ro alpha fast std_parse fuel s1) = fst (next_value ro alpha fast std_parse fuel s2) /\
     iprel (snd (next_value ro alpha fast std_parse fuel s1)) (snd (next_value ro alpha fast std_parse fuel s2)).
   Proof.
-    exact (proj1 (psim_values irel irel_rk isim_peek isim_next isim_eat isim_error isim_peek_error isim_error_consume
-                    isimS_take_run isimS_take_symbol fast std_parse ro alpha fuel) s1 s2).
+    exact (proj1 (psim_values irel irel_io isim_peek isim_next isim_eat isim_error isim_peek_error isim_error_consume
+                    isimS_take_run isim_symbol_rd isim_r6rs_str_rd fast std_parse ro alpha fuel) s1 s2).
   Qed.
   Theorem next_datum_interrupts fuel s1 s2 : iprel s1 s2 ->
     fst (next_datum ro alpha fast std_parse fuel s1) = fst (next_datum ro alpha fast std_parse fuel s2) /\
     iprel (snd (next_datum ro alpha fast std_parse fuel s1)) (snd (next_datum ro alpha fast std_parse fuel s2)).
   Proof.
-    exact (proj1 (psim_datums irel irel_rk isim_peek isim_next isim_eat isim_error isim_peek_error isim_error_consume
-                    isimS_take_run isimS_take_symbol fast std_parse ro alpha fuel) s1 s2).
+    exact (proj1 (psim_datums irel irel_io isim_peek isim_next isim_eat isim_error isim_peek_error isim_error_consume
+                    isimS_take_run isim_symbol_rd isim_r6rs_str_rd fast std_parse ro alpha fuel) s1 s2).
   Qed.
 
   (* a whole iteration *)
@@ -187,8 +195,8 @@ Section Invisible.
   Proof.
     intros H. unfold from_trait_with.
     assert (Hs : psim irel (pbind (expect_value ro alpha fast std_parse fuel) (fun v => pbind (expect_end_p fuel) (fun _ => pret v)))).
-    { apply psim_bind; [apply (psim_expect_value irel irel_rk isim_peek isim_next isim_eat isim_error isim_peek_error
-                                 isim_error_consume isimS_take_run isimS_take_symbol)|].
+    { apply psim_bind; [apply (psim_expect_value irel irel_io isim_peek isim_next isim_eat isim_error isim_peek_error
+                                 isim_error_consume isimS_take_run isim_symbol_rd isim_r6rs_str_rd)|].
       intros v. apply psim_bind; [apply (psim_expect_end irel isim_peek isim_next isim_eat isim_peek_error)|].
       intros _. apply psim_pret. }
     exact (proj1 (Hs _ _ (init_related inp1 inp2 H))).
